@@ -21,6 +21,8 @@ pub struct ExecCase {
     pub mode: Mode,
     pub calls: Vec<char>,
     pub faults: Vec<u32>,
+    /// kind of the dispatch that follows the caught panic(s) (C14)
+    pub next: char,
     pub regs: Vec<Reg>,
 }
 
@@ -34,11 +36,11 @@ impl ExecCase {
         };
         let calls: Vec<String> = self.calls.iter().map(|c| c.to_string()).collect();
         let faults = if self.faults.is_empty() { "-".to_string() } else { self.faults.iter().map(|t| t.to_string()).collect::<Vec<_>>().join(",") };
-        format!("exec map={} pool={} mode={} calls={} faults={}", self.map.name(), self.pool, mode, calls.join(","), faults)
+        format!("exec map={} pool={} mode={} calls={} faults={} next={}", self.map.name(), self.pool, mode, calls.join(","), faults, self.next)
     }
     pub fn parse(line: &str) -> ExecCase {
         let (head, progt) = line.split_once(" :: ").unwrap_or((line, ""));
-        let mut c = ExecCase { map: MapMode::A, pool: 4, mode: Mode::Free, calls: vec!['d'], faults: vec![], regs: from_text(progt) };
+        let mut c = ExecCase { map: MapMode::A, pool: 4, mode: Mode::Free, calls: vec!['d'], faults: vec![], next: 'd', regs: from_text(progt) };
         for t in head.split(' ') {
             if let Some(v) = t.strip_prefix("map=") { c.map = MapMode::parse(v); }
             if let Some(v) = t.strip_prefix("pool=") { c.pool = v.parse().unwrap(); }
@@ -49,6 +51,7 @@ impl ExecCase {
                     else { panic!("mode") };
             }
             if let Some(v) = t.strip_prefix("calls=") { c.calls = v.split(',').filter(|s| !s.is_empty()).map(|s| s.chars().next().unwrap()).collect(); }
+            if let Some(v) = t.strip_prefix("next=") { c.next = v.chars().next().unwrap_or('d'); }
             if let Some(v) = t.strip_prefix("faults=") { c.faults = if v == "-" { vec![] } else { v.split(',').map(|s| s.parse().unwrap()).collect() }; }
         }
         c
@@ -176,8 +179,8 @@ fn fix_multi(log: Vec<Ev>, multis: &[(u32, Vec<u32>)]) -> Vec<Ev> {
         while i < log.len() {
             if let Ev::CtlIn(t, _, _) = &log[i] {
                 if t == tag {
-                    // a panic injected into the controller itself: no window end
-                    if let Some(Ev::P(pt)) = log.get(i + 1) { if pt == tag { i += 2; continue; } }
+                    // a panic injected into the controller itself: the window ends with the unwinding
+                    if let Some(Ev::P(pt)) = log.get(i + 1) { if pt == tag { log.insert(i + 2, Ev::CtlOut(*tag)); i += 3; continue; } }
                     let mut last = i;
                     let mut j = i + 1;
                     while j < log.len() {
@@ -371,7 +374,14 @@ pub fn observe(c: &ExecCase, env: &mut ExecEnv) -> String {
     rec.faults.lock().unwrap().clear();
     if !c.faults.is_empty() {
         // C14: the next dispatch after the caught panic(s)
-        let r = catch_unwind(AssertUnwindSafe(|| dispatcher.dispatch(&world)));
+        let r = catch_unwind(AssertUnwindSafe(|| match c.next {
+            #[cfg(feature = "parallel")]
+            'p' => dispatcher.dispatch_par(&world),
+            #[cfg(not(feature = "parallel"))]
+            'p' => dispatcher.dispatch_seq(&world),
+            's' => dispatcher.dispatch_seq(&world),
+            _ => dispatcher.dispatch(&world),
+        }));
         let log = fix_multi(rec.take(), &multis);
         let payload = match &r { Ok(()) => "-".to_string(), Err(p) => hexs(&payload_string(p)) };
         s.push_str(&format!("TN={};PN={};probeN={};", encode(&log), payload, probe(&c.regs, c.map, &world)));
